@@ -960,5 +960,6 @@ def explore_program_schedules(src: str, fn: str = "main", max_deviations: int | 
     return {'outcomes': {outcome: witness script}, 'result': ExploreResult}.
     Several distinct outcomes = the compiler's output depends on the worklist order."""
     kw.setdefault("memo", True)
+    kw.setdefault("strategy", "inplace")     # ~10-100x fewer pipeline runs than "replay"
     res = explore(lambda: pipeline_outcome(src, fn), max_deviations=max_deviations, **kw)
     return {"outcomes": res.outcomes, "result": res}
